@@ -55,6 +55,9 @@ def check (inp out : List String) : Verdict :=
           ("newest_processed", h.reverse.take (min cap sentIds.length) == sentIds.reverse.take (min cap sentIds.length)) ]
       { agree := m == impl, model := showLists m, specFail := (failing cl).eraseDups }
     | _, _, _ => .bad "bus tokens"
+  | "bus" :: _, [_, extra] =>
+    -- the harness saw a command whose handler was started but never finished (dropped mid-command)
+    { agree := false, model := "every started handler finishes", specFail := ["started_command_runs_to_completion"], parseErr := !extra.startsWith "INCOMPLETE" }
   | _, _ => .bad "bus arity"
 
 end Glonax.Driver.BusDrv
